@@ -264,7 +264,9 @@ UINT32B = [0, 1, 2 ** 32 - 1, 2 ** 31]
 DBLB = [0.0, float("inf"), float("-inf"), float("nan"), 1e308, 5e-324, -0.0]
 NBYTES = [-2 ** 31, -1, 2 ** 20 + 1, 2 ** 31 - 1, 2 ** 20, 70000, 0, 1]
 HPOOL = [0, 60, 61, 62, 100, 101, 199, 200, -1, 32767, -32768, 0, 0]
-HNAMES = [b"", b"hx", b"\xff\xfe\x80", b"A" * 32, b"caf\xc3\xa9", b"hx\x00junk", bytes(range(128, 160))]
+HNAMES = [b"", b"hx", b"\xff\xfe\x80", b"A" * 32, b"caf\xc3\xa9", b"hx\x00junk", bytes(range(128, 160)),
+          # text that means something to the console log formatter (rich markup), to str.format and to %-formatting
+          b"[/b]", b"x[/]y", b"[bold red", b"\\[/]", b"{0}{name!r}", b"%s%d%(x)s", b"a\nb\r\x1b[31m"]
 HTYPE = 777
 HFIELDS = ["msg_type", "msg_count", "send_time", "recv_time", "src_host_id", "src_mod_id", "dest_host_id",
            "dest_mod_id", "num_data_bytes", "remaining_bytes", "is_dynamic", "reserved", "all"]
